@@ -127,7 +127,13 @@ func DrawH2Script(t *rapid.T, o H2GenOpts) *H2Script {
 				addEvent(FPEvent{Kind: "settings", Settings: ss})
 			case 1:
 				inc := uint32(rapid.IntRange(1, 1<<20).Draw(t, "wuinc"))
-				cur = append(cur, WindowUpdateFrame(0, inc))
+				wst := uint32(0)
+				if nextStream > 1 && drawBool(t, "wustream", 40) {
+					// on a stream opened earlier, which may be half-closed or closed by now: legal
+					// (RFC 7540 6.9), and as much a WINDOW_UPDATE frame as one on stream 0 (wave 12, C03-t)
+					wst = uint32(2*rapid.IntRange(0, int(nextStream-3)/2).Draw(t, "wust") + 1)
+				}
+				cur = append(cur, WindowUpdateFrame(wst, inc))
 				addEvent(FPEvent{Kind: "wu", Inc: inc})
 			case 2, 3:
 				st := uint32(2*rapid.IntRange(0, 12).Draw(t, "pstream") + 1)
